@@ -96,12 +96,13 @@ RECURSIVE NLNodes(_)
 NLNodes(ns) == IF ns = <<>> THEN 0 ELSE NLNode(Head(ns)) + NLNodes(Tail(ns))
 RECURSIVE NLBranches(_)
 NLBranches(bs) == IF bs = <<>> THEN 0 ELSE NLNodes(Head(bs).body) + NLBranches(Tail(bs))
+Pad(n) == Fld(n, "padnl", 0)        \* newlines inside the node's own (opening) tag
 NLNode(n) ==
   CASE n.t \in {"text", "raw", "comment"} -> Newlines(n.s)
-    [] n.t = "if" -> NLBranches(n.branches)
-    [] n.t = "case" -> NLNodes(Fld(n, "pre", <<>>)) + NLBranches(n.whens)
-    [] n.t = "for" -> NLNodes(n.body) + NLNodes(Fld(n, "else", <<>>))
-    [] n.t = "capture" -> NLNodes(n.body)
+    [] n.t = "if" -> Pad(n) + NLBranches(n.branches)
+    [] n.t = "case" -> Pad(n) + NLNodes(Fld(n, "pre", <<>>)) + NLBranches(n.whens)
+    [] n.t = "for" -> Pad(n) + NLNodes(n.body) + NLNodes(Fld(n, "else", <<>>))
+    [] n.t = "capture" -> Pad(n) + NLNodes(n.body)
     \* a tag or object may itself span lines (padnl newlines inside its delimiters): it begins on
     \* the line it starts, what follows it is that many lines further down
     [] OTHER -> Fld(n, "padnl", 0)
@@ -245,14 +246,14 @@ ExecNode(cx, st0, n, line) ==
            ELSE [st0 EXCEPT !.env = SetVar(st0.env, n.name, v.v)]
     [] n.t = "capture" ->
          [st0 EXCEPT !.ws = Append(@, Writer0),
-                     !.k = Append(@, SeqF(n.body, "capture", line, line, n.name))]
+                     !.k = Append(@, SeqF(n.body, "capture", line + Pad(n), line, n.name))]
     [] n.t = "if" ->
          LET p == PickBranch(n.branches, 1, st0.env, Fld(n, "neg", FALSE)) IN
            IF p.r = "err" THEN Fail(cx, st0, IF Len(n.branches) = 1 THEN line ELSE 0 - 1, "eval")
            ELSE IF p.r = "unspec" THEN Undecided(st0)
            ELSE IF p.r = "none" THEN st0
            ELSE [st0 EXCEPT !.k = Append(@, SeqF(n.branches[p.j].body, "block",
-                                                  line + NLBranches(SubSeq(n.branches, 1, p.j - 1)), line, <<>>))]
+                                                  line + Pad(n) + NLBranches(SubSeq(n.branches, 1, p.j - 1)), line, <<>>))]
     [] n.t = "case" ->
          LET s == Eval(n.e, st0.env) IN
            IF s.r = "err" THEN Fail(cx, st0, line, "eval")
@@ -262,7 +263,7 @@ ExecNode(cx, st0, n, line) ==
              ELSE IF p.r = "unspec" THEN Undecided(st0)
              ELSE IF p.r = "none" THEN st0
              ELSE [st0 EXCEPT !.k = Append(@, SeqF(n.whens[p.j].body, "block",
-                        line + NLNodes(Fld(n, "pre", <<>>)) + NLBranches(SubSeq(n.whens, 1, p.j - 1)), line, <<>>))]
+                        line + Pad(n) + NLNodes(Fld(n, "pre", <<>>)) + NLBranches(SubSeq(n.whens, 1, p.j - 1)), line, <<>>))]
     [] n.t = "for" ->
          LET c == Eval(n.coll, st0.env) IN
            IF c.r = "err" THEN Fail(cx, st0, line, "eval")
@@ -279,10 +280,10 @@ ExecNode(cx, st0, n, line) ==
                   IN
                IF sel = <<>> THEN
                  (IF "else" \in DOMAIN n
-                  THEN [st0 EXCEPT !.k = Append(@, SeqF(n["else"], "block", line + NLNodes(n.body), line, <<>>))]
+                  THEN [st0 EXCEPT !.k = Append(@, SeqF(n["else"], "block", line + Pad(n) + NLNodes(n.body), line, <<>>))]
                   ELSE st0)
                ELSE [st0 EXCEPT !.k = Append(@,
-                       [f |-> "loop", node |-> n, items |-> sel, i |-> 0, phase |-> "next", ln |-> line,
+                       [f |-> "loop", node |-> n, items |-> sel, i |-> 0, phase |-> "next", ln |-> line, bodyln |-> line + Pad(n),
                         savedLoop |-> Lookup(st0.env, B_forloop), savedVar |-> Lookup(st0.env, n.var),
                         cyc |-> <<>>,
                         cols |-> IF cols.r = "int" /\ cols.v > 0 THEN cols.v ELSE 0])]
@@ -370,7 +371,7 @@ StepLoop(cx, st, lf) ==
         s1 == RowBefore(cx, [st EXCEPT !.k[top] = lf2, !.env = env2], lf2)
     IN  IF s1.sink.failed
         THEN (IF cx.pol.flushErr = "panic" THEN [s1 EXCEPT !.status = "panic"] ELSE Fail(cx, s1, 0 - 1, "io"))
-        ELSE [s1 EXCEPT !.k = Append(@, SeqF(lf.node.body, "iter", lf.ln, lf.ln, <<>>))]
+        ELSE [s1 EXCEPT !.k = Append(@, SeqF(lf.node.body, "iter", lf.bodyln, lf.ln, <<>>))]
 
 \* one step of unwinding for break / continue
 StepSignal(cx, st) ==
